@@ -306,11 +306,81 @@ func (s *LinearState) deleteDependencies(ctx *Context, id string) error {
 	return nil
 }
 
-func (s *LinearState) Search(ctx *Context, pattern Map) (*SearchResults, error) {
-	return s.search(ctx, pattern, true)
+// purgeExpired removes those of the given ids that are (still)
+// expired, together with their dependents.
+//
+// The read paths (Get, Search, FindRules) hold at most the read lock
+// when they notice an expired fact, and removing it writes the map
+// and storage.  So they only collect the ids and call this method
+// after releasing their lock.  Returns the ids (of the given ones and
+// of their dependents) that are gone afterwards.
+func (s *LinearState) purgeExpired(ctx *Context, ids []string) (map[string]bool, error) {
+	if len(ids) == 0 {
+		return nil, nil
+	}
+	s.slock(ctx, false)
+	defer s.sunlock(ctx, false)
+	before := make([]string, 0, len(s.Facts))
+	for id := range s.Facts {
+		before = append(before, id)
+	}
+	var first error
+	for _, id := range ids {
+		rf, have := s.Facts[id]
+		if !have {
+			continue
+		}
+		if _, err := s.expire(ctx, id, rf.M, 0); err != nil && first == nil {
+			first = err
+		}
+	}
+	gone := make(map[string]bool)
+	for _, id := range before {
+		if _, have := s.Facts[id]; !have {
+			gone[id] = true
+		}
+	}
+	return gone, first
 }
 
+func (s *LinearState) Search(ctx *Context, pattern Map) (*SearchResults, error) {
+	var expired []string
+	s.slock(ctx, true)
+	srs, err := s.searchLocked(ctx, pattern, &expired)
+	s.sunlock(ctx, true)
+	if 0 < len(expired) {
+		gone, perr := s.purgeExpired(ctx, expired)
+		if perr != nil && err == nil {
+			return nil, perr
+		}
+		if srs != nil && 0 < len(gone) {
+			// Dependents of the expired facts went with them.
+			found := srs.Found[:0]
+			for _, sr := range srs.Found {
+				if !gone[sr.Id] {
+					found = append(found, sr)
+				}
+			}
+			srs.Found = found
+		}
+	}
+	return srs, err
+}
+
+// search is for callers that hold the write lock (lock is false) or
+// want the read lock taken here (as Search).
 func (s *LinearState) search(ctx *Context, pattern Map, lock bool) (*SearchResults, error) {
+	if lock {
+		return s.Search(ctx, pattern)
+	}
+	return s.searchLocked(ctx, pattern, nil)
+}
+
+// searchLocked does the work.  The caller holds the lock.  If that's
+// only the read lock, the caller passes a slice to collect the ids of
+// the expired facts (see purgeExpired); otherwise those facts are
+// removed right away.
+func (s *LinearState) searchLocked(ctx *Context, pattern Map, expiredIds *[]string) (*SearchResults, error) {
 	Log(DEBUG, ctx, "LinearState.Search", "pattern", pattern)
 	timer := NewTimer(ctx, "LinearState.search")
 	defer timer.Stop()
@@ -320,13 +390,15 @@ func (s *LinearState) search(ctx *Context, pattern Map, lock bool) (*SearchResul
 
 	srs := SearchResults{}
 	srs.Found = make([]SearchResult, 0, 0)
-	if lock {
-		s.slock(ctx, true)
-		defer s.sunlock(ctx, true)
-	}
 	for id, rf := range s.Facts {
 		srs.Checked++
-		expired, err := s.expire(ctx, id, rf.M, now)
+		var expired bool
+		var err error
+		if expiredIds == nil {
+			expired, err = s.expire(ctx, id, rf.M, now)
+		} else if expired, err = checkExpiration(ctx, rf.M, now); expired {
+			*expiredIds = append(*expiredIds, id)
+		}
 		if err != nil {
 			return nil, err
 		}
@@ -379,21 +451,41 @@ func (s *LinearState) FindRules(ctx *Context, event Map) (map[string]Map, error)
 }
 
 func (s *LinearState) doFindRules(ctx *Context, event Map) (map[string]Map, error) {
+	var expired []string
+	s.slock(ctx, true)
+	acc, err := s.findRulesLocked(ctx, event, &expired)
+	s.sunlock(ctx, true)
+	if 0 < len(expired) {
+		// See purgeExpired.
+		gone, perr := s.purgeExpired(ctx, expired)
+		if perr != nil && err == nil {
+			Log(ERROR, ctx, "LinearState.FindRules", "error", perr, "when", "expiring")
+			return nil, perr
+		}
+		for id := range gone {
+			delete(acc, id)
+		}
+	}
+	return acc, err
+}
+
+func (s *LinearState) findRulesLocked(ctx *Context, event Map, expiredIds *[]string) (map[string]Map, error) {
 	// We could call Search(), but we'll try to be a bit
 	// more efficient here.
 	acc := make(map[string]Map)
-	s.slock(ctx, true)
-	defer s.sunlock(ctx, true)
 	now := time.Now().UTC().Unix()
 	for id, rf := range s.Facts {
 		rule, given := rf.M["rule"]
 		if !given {
 			continue
 		}
-		expired, err := s.expire(ctx, id, rf.M, now)
+		expired, err := checkExpiration(ctx, rf.M, now)
 		if err != nil {
 			Log(ERROR, ctx, "LinearState.FindRules", "error", err, "when", "expiring")
 			return nil, err
+		}
+		if expired {
+			*expiredIds = append(*expiredIds, id)
 		}
 		if expired {
 			Log(DEBUG, ctx, "LinearState.FindRules", "expired", expired, "ruleId", id, "rule", rule)
@@ -546,7 +638,14 @@ func (s *LinearState) get(ctx *Context, id string, getLock bool) (Map, error) {
 	if !found {
 		return nil, NewNotFoundError("%s", id)
 	}
-	expired, err := s.expire(ctx, id, rf.M, 0)
+	// We no longer hold the lock: only look here, and let
+	// purgeExpired do the removal under the write lock (where it
+	// looks again, so that a fact written under this id in the
+	// meantime survives).
+	expired, err := checkExpiration(ctx, rf.M, 0)
+	if err == nil && expired {
+		_, err = s.purgeExpired(ctx, []string{id})
+	}
 	if err != nil {
 		Log(ERROR, ctx, "LinearState.Get", "error", err, "when", "expiring")
 		return nil, err
